@@ -307,16 +307,16 @@ func registerStdIntrinsics(p *Program) {
 	}
 }
 
-var ctxNamed *types.Named
-
 func (p *Program) ctxType() types.Type {
-	p.pdmu.Lock()
-	defer p.pdmu.Unlock()
-	if ctxNamed == nil {
-		zp := types.NewPackage("zzopaque", "zzopaque")
-		ctxNamed = types.NewNamed(types.NewTypeName(0, zp, "backgroundCtx", nil), types.NewStruct(nil, nil), nil)
-	}
-	return ctxNamed
+	return p.RegisterOpaque("backgroundCtx", map[string]intrinsic{
+		"Err":   func(e *Exec, fr *frame, args []Value) Value { return Iface{} },
+		"Done":  func(e *Exec, fr *frame, args []Value) Value { return (*ChanObj)(nil) },
+		"Value": func(e *Exec, fr *frame, args []Value) Value { return Iface{} },
+		"Deadline": func(e *Exec, fr *frame, args []Value) Value {
+			e.unsupported("context.Deadline on the modelled never-cancelled context")
+			return nil
+		},
+	})
 }
 
 func (e *Exec) deepEqual(a, b Value) *Term {
